@@ -34,9 +34,51 @@ TSAN_DEFS = ("ENABLE_THREADS", "C19_TSAN")
 OPF = ("op", "loc", "l", "o", "kind", "par", "name", "fmt", "msg")
 
 
-def build(san="asan"):
-    return vlib.build_harness("c19_log", ["c19_log.cpp"], libs=("core", "log"), san=san,
-                              defs=TSAN_DEFS if san == "tsan" else DEFS)
+def _tree_build_failure(e):
+    """The first error line if the Infra is a compile / link failure of OUR translation unit against the
+    tree under test (a verdict about the tree); None if it is anything else (also: a library source of
+    the tree itself that does not compile - such a tree does not build its own tests either)."""
+    msg = str(e)
+    m = re.match(r"(compile|link) failed: (\S+)", msg)
+    if not m or (m.group(1) == "compile" and not os.path.abspath(m.group(2)).startswith(os.path.abspath(vlib.HARNESS))):
+        return None
+    return next((x.strip() for x in msg.splitlines() if "error" in x), msg.splitlines()[0])[:500]
+
+
+def build(san="asan", ctx=None):
+    """The harness; if it does not compile against the tree under test, the CORE harness (-DC19_CORE_ONLY:
+    only context::set/get, the object constructors, level, enabled, log - what the statement names; no
+    call records, accessors, FCPPT_LOG_* macros).  Core builds -> the observed-only part is an
+    OBSERVATION and the in-scope part is judged; core does not build either -> VIOLATION
+    C19:core:does-not-compile ("the property cannot hold for inputs the code rejects"), returns None."""
+    defs = TSAN_DEFS if san == "tsan" else DEFS
+    try:
+        return vlib.build_harness("c19_log", ["c19_log.cpp"], libs=("core", "log"), san=san, defs=defs)
+    except vlib.Infra as e:
+        first = _tree_build_failure(e)
+        if first is None or ctx is None:
+            raise
+    vlib.log("the full harness does not compile against this tree (%s): building the core harness" % first)
+    try:
+        b = vlib.build_harness("c19_log_core", ["c19_log.cpp"], libs=("core", "log"), san=san, defs=defs + ("C19_CORE_ONLY",))
+    except vlib.Infra as e:
+        f2 = _tree_build_failure(e)
+        if f2 is None:
+            raise
+        if not ctx.extra.get("core_build_failed"):
+            ctx.extra["core_build_failed"] = f2
+            ctx.reject("C19:core:does-not-compile",
+                       "the core harness (only context::set / context::get / the three fcppt::log::object constructors / "
+                       "object::level / enabled / log with well-formed arguments, as named by the statement of C19) does "
+                       "not compile against the tree under test: %s" % f2, {"build": True, "san": san})
+        return None
+    if not ctx.extra.get("full_build_failed"):
+        ctx.extra["full_build_failed"] = first
+        observe(ctx, "build", ["observed-only-part-does-not-compile"], "harness build (%s)" % san,
+                "the full harness (call records of level names / default streams / formatter functions / level_stream / "
+                "parameters, object accessors, FCPPT_LOG_* macros: outside the statement) does not compile: %s; the "
+                "in-scope histories are driven with the core harness" % first)
+    return b
 
 
 # ----------------------------------------------------------------------------- sequential judge
@@ -75,6 +117,8 @@ def observe(ctx, op, reasons, what, line):
         obs.append({"signature": sig, "from": what, "event": line[:600],
                     "note": "outside the statement of property C19: observation, not a verdict"})
         vlib.log("OBSERVED (outside the statement of C19, no verdict): %s: %s" % (sig, line[:200]))
+    if counts[sig] == 1:
+        print("OBSERVATION property=C19 (outside the statement, not a violation) %s: %s" % (sig, line[:300]))
 
 
 def judge_trace_small(ctx, path, max_lines=6000, workers=8):
@@ -121,24 +165,96 @@ def judge_trace_small(ctx, path, max_lines=6000, workers=8):
     return sorted(bad, key=lambda b: b["l"])
 
 
-def judge_seq(ctx, path, what, rc, out, record_args=None):
-    lines, tail = vlib.check_trace_file(path)
-    lines = [x for x in lines if not x.startswith('{"e":"crash"')]
-    if rc != 0:
-        op = "?"
-        if tail:
-            m = re.search(r'"op":"(\w+)"', tail)
-            op = m.group(1) if m else "?"
-        kind = {66: "sanitizer", 67: "crash", 68: "hang", 124: "timeout"}.get(rc, "exit%d" % rc)
+RC_KIND = {66: "sanitizer", 67: "crash", 68: "hang", 124: "timeout"}
+MAX_RESTARTS = 3
+
+
+def drive_seq(ctx, binary, args_of, path, what, timeout):
+    """Run the sequential harness (`args_of(first, recs, out)` -> argv).  A crash / sanitizer abort / hang
+    of the code under test is a verdict (in scope: rejected event C19:<op>:<kind>; inside an observed-only
+    call record: OBSERVATION), never an infrastructure failure; the complete prefix of the trace is kept
+    and the harness is restarted behind the history that died (at most MAX_RESTARTS times), so that the
+    other histories are still judged.  Writes the concatenated complete lines to `path`."""
+    all_lines = []
+    first, recs, hangs = 0, 1, 0
+    for attempt in range(MAX_RESTARTS + 1):
+        part = "%s.part%d" % (path, attempt)
+        if os.path.exists(part):
+            os.unlink(part)
+        rc, out = vlib.run_harness(binary, args_of(first, recs, part), timeout=timeout)
+        lines, tail = vlib.check_trace_file(part) if os.path.exists(part) else ([], None)
+        if os.path.exists(part):
+            os.unlink(part)
+        lines = [x for x in lines if not x.startswith('{"e":"crash"')]
+        if rc == 0:
+            all_lines += lines
+            break
+        if rc == 3:
+            raise vlib.Infra("harness usage error (%s): %s" % (what, out[-300:]))
+        kind = RC_KIND.get(rc, "crash" if rc < 0 else "exit%d" % rc)       # rc < 0: killed by a signal (e.g. stack overflow)
+        tail = tail or ""
+        m = re.search(r'"op":"(\w+)"', tail)
+        mf = re.search(r'^\{"e":"rec","f":"(\w+)"', tail)
+        last_h = None
+        for x in reversed(lines):
+            if x.startswith('{"e":"reset"'):
+                last_h = json.loads(x)["h"]
+                break
+        if mf and mf.group(1) != "dlog":
+            # an independent call record of something the statement does not mention
+            observe(ctx, mf.group(1), [kind], what, "%s inside the call record %s: %s" % (kind, tail[:200], san_summary(out)))
+            recs = 0
+            all_lines += lines
+            first = first if last_h is None else last_h + 1
+            continue
+        op = m.group(1) if m else (mf.group(1) if mf else "?")
+        if op == "?" and not tail:
+            op = "teardown" if lines else "startup"      # died between two records: context / object destruction or construction
         hist = vlib.history_of(lines, len(lines)) if lines else []
         script = script_of(hist)
-        if tail and tail.startswith('{"e":"op"'):
+        if tail.startswith('{"e":"op"'):
             try:
                 script.append({k: v for k, v in json.loads(tail + "}").items() if k in OPF})
             except ValueError:
                 pass
         ctx.reject("C19:%s:%s" % (op, kind), "%s during %s (%s): %s" % (kind, op, what, san_summary(out)),
                    {"script": script, "partial_line": tail})
+        all_lines += lines
+        first = (first + (0 if mf else 1)) if last_h is None else last_h + 1
+        if mf:
+            recs = 0
+        if kind in ("hang", "timeout"):
+            hangs += 1
+            if hangs >= 2:       # every hang costs the watchdog time: one restart only
+                break
+    else:
+        vlib.log("%s: the harness died %d times; the histories behind the last crash are not driven" % (what, MAX_RESTARTS + 1))
+        ctx.extra["histories_not_driven_after_crashes"] = ctx.extra.get("histories_not_driven_after_crashes", 0) + 1
+    with open(path, "w") as f:
+        f.write("\n".join(all_lines) + ("\n" if all_lines else ""))
+    return all_lines
+
+
+def judge_seq(ctx, path, what, record_args=None):
+    lines, _ = vlib.check_trace_file(path)
+    # an undocumented exception out of a driven call (or out of the read-back after it): the harness logs
+    # "exc" instead of results and abandons the history
+    kept = []
+    for x in lines:
+        if x.startswith('{"e":"op"') and '"exc":"' in x:
+            try:
+                ev = json.loads(x)
+            except ValueError:
+                continue
+            hist = vlib.history_of(kept, len(kept)) if kept else []
+            ctx.reject("C19:%s:exception" % ev.get("op", "?"),
+                       "%s: %s threw %s (no exception is documented for set / get / object creation / level / enabled / log)" % (
+                           what, ev.get("op", "?"), str(ev.get("exc"))[:200]),
+                       {"script": script_of(hist) + [{k: ev[k] for k in OPF if k in ev}], "event": ev})
+            continue
+        kept.append(x)
+    if len(kept) != len(lines):
+        lines = kept
         with open(path, "w") as f:
             f.write("\n".join(lines) + ("\n" if lines else ""))
     if not lines:
@@ -166,6 +282,17 @@ def judge_seq(ctx, path, what, rc, out, record_args=None):
     return lines
 
 
+def none_seen(ctx, key):
+    d = ctx.extra.setdefault("none_coverage", {})
+    d[key] = d.get(key, 0) + 1
+
+
+NONE_REQUIRED = (["context-constructed-disabled", "get-none", "level-on-disabled"] +
+                 ["set-none-depth%d" % d for d in range(4)] +
+                 ["enabled-on-disabled-l%d" % l for l in range(6)] + ["log-on-disabled-l5", "logm-on-disabled-l5"] +
+                 ["create-below-disabled-%s" % k for k in ("ctx", "loc", "parent")])
+
+
 def count_seq(ctx, lines):
     for x in lines:
         e = json.loads(x)
@@ -174,9 +301,20 @@ def count_seq(ctx, lines):
             ctx.count_class(("rec", f, e.get("l", -1), e.get("has", None), e.get("ok", None), len(e.get("steps", []))))
             ctx.extra.setdefault("record_counts", {})[f] = ctx.extra.setdefault("record_counts", {}).get(f, 0) + 1
             continue
+        if e.get("e") == "reset" and e.get("root") == 6:
+            none_seen(ctx, "context-constructed-disabled")
         if e.get("e") != "op":
             continue
         op = e["op"]
+        # the optional level "none" (6): where it was set, and what was observed on a disabled node
+        if op == "set" and e["l"] == 6:
+            none_seen(ctx, "set-none-depth%d" % len(e["loc"]))
+        elif op == "get" and e["ret"] == 6:
+            none_seen(ctx, "get-none")
+        elif op in ("level", "enabled", "log", "logm") and 0 < e["o"] <= len(e["ol"]) and e["ol"][e["o"] - 1] == 6:
+            none_seen(ctx, "%s-on-disabled%s" % (op, "" if op == "level" else "-l%d" % e["l"]))
+        elif op == "create" and 0 < e["o"] <= len(e["ol"]) and e["ol"][e["o"] - 1] == 6:
+            none_seen(ctx, "create-below-disabled-%s" % e["kind"])
         if op in ("set", "get"):
             ctx.count_class((op, len(e["loc"]), e["l"] if op == "set" else e["ret"]))
         elif op == "create":
@@ -204,10 +342,12 @@ def tlc_conc(path):
 def split_runs(lines):
     runs = []
     for x in lines:
+        if x.startswith('{"e":"crash"'):
+            continue
         if x.startswith('{"e":"cstart"'):
             runs.append([])
         if not runs:
-            raise vlib.Infra("threaded trace does not start with cstart")
+            continue        # (cannot happen: every part of the file starts with a cstart record)
         runs[-1].append(x)
     return runs
 
@@ -218,9 +358,12 @@ def judge_conc(ctx, path, what, extra_payload):
     if not lines:
         return 0, 0
     runs = split_runs(lines)
+    if not runs:
+        return 0, 0
     nch = max(1, min(8, len(runs)))
     groups = [runs[i::nch] for i in range(nch)]
     states = [0]
+    skipped = [0]
 
     def one(gi):
         rejected = []
@@ -255,14 +398,23 @@ def judge_conc(ctx, path, what, extra_payload):
                 end += 1
             rejected.append((run[:end], at, ev))
             todo = todo[ri + 1:]
+            if len(rejected) >= 3 and todo:
+                # a tree that breaks the property in (nearly) every run: three rejected runs per judge
+                # process are evidence enough, the verdict must not be delayed by a TLC start per run
+                skipped[0] += len(todo)
+                break
         return rejected
 
     results = vlib.parallel(one, list(range(nch)))
     ctx.extra["linearisation_search_states"] = ctx.extra.get("linearisation_search_states", 0) + states[0]
+    if skipped[0]:
+        ctx.extra["conc_runs_not_judged_after_3_rejections_per_group"] = ctx.extra.get("conc_runs_not_judged_after_3_rejections_per_group", 0) + skipped[0]
     nrej = 0
     for rej in results:
         for hist, at, ev in rej:
             nrej += 1
+            if nrej > 8:
+                break
             # second opinion: the saved history on its own must be rejected again
             hp = os.path.join(ctx.workdir, "conc_history_%d_%d.ndjson" % (os.getpid(), nrej))
             with open(hp, "w") as f:
@@ -292,6 +444,14 @@ def count_conc(ctx, lines):
     for x in lines:
         e = json.loads(x)
         if e["e"] == "b":
+            if e["op"] == "set" and e["l"] == 6:
+                none_seen(ctx, "threaded-set-none-depth%d" % len(e["loc"]))
+            elif e["op"] == "get" and e["r"] == 6:
+                none_seen(ctx, "threaded-get-none")
+            elif e["op"] == "level" and e["r"] == 6:
+                none_seen(ctx, "threaded-level-none")
+            elif e["op"] == "enabled" and e["l"] == 5 and not e["rb"]:
+                none_seen(ctx, "threaded-enabled-fatal-false")
             ctx.count_class(("conc", e["op"], min(len(pend), 3), len(e["loc"])))
             pend[e["t"]] = 1
         elif e["e"] == "e":
@@ -309,17 +469,51 @@ def sanitizer_ops(out):
     return "+".join(sorted(ops)) if ops else "threads"
 
 
+def pending_ops(out):
+    """the public calls the threads were inside when the process died (harness: C19-PENDING-CALLS)"""
+    m = re.findall(r"C19-PENDING-CALLS((?: \w+)*)", out)
+    ops = set(m[-1].split()) if m else set()
+    return "+".join(sorted(ops)) if ops else None
+
+
 def run_threaded(ctx, binary, san, seed, runs, windows, maxcalls, tag):
+    """A crash / sanitizer report / hang (watchdog of the harness: rc 68; ours: 124) is a rejected event
+    naming the calls involved; the complete windows logged before it are still judged, and the ASan
+    build is restarted behind the run that died (at most twice)."""
     path = os.path.join(ctx.workdir, "threads_%s_%s.ndjson" % (san, tag))
-    args = ["threads", path, seed, runs, windows, maxcalls]
-    rc, out = vlib.run_harness(binary, args, timeout=3000)
-    info = {"san": san, "args": [str(a) for a in args[2:]]}
-    if rc != 0:
-        kind = "tsan" if "ThreadSanitizer" in out else {66: "sanitizer", 67: "crash", 68: "hang", 124: "timeout"}.get(rc, "exit%d" % rc)
-        ctx.reject("C19:%s:%s" % (sanitizer_ops(out), kind),
+    info = {"san": san, "args": [str(a) for a in (seed, runs, windows, maxcalls)]}
+    timeout = 3000 if ctx.tier == "thorough" else 420
+    first, rc_all, all_lines = 0, 0, []
+    for attempt in range(3):
+        part = "%s.part%d" % (path, attempt)
+        if os.path.exists(part):
+            os.unlink(part)
+        rc, out = vlib.run_harness(binary, ["threads", part, seed, runs, windows, maxcalls, first], timeout=timeout)
+        lines, _ = vlib.check_trace_file(part) if os.path.exists(part) else ([], None)
+        if os.path.exists(part):
+            os.unlink(part)
+        all_lines += [x for x in lines if not x.startswith('{"e":"crash"')]
+        if rc == 0:
+            break
+        if rc == 3:
+            raise vlib.Infra("threaded harness usage error: %s" % out[-300:])
+        rc_all = rc
+        kind = "tsan" if "ThreadSanitizer" in out else RC_KIND.get(rc, "crash" if rc < 0 else "exit%d" % rc)
+        ops = pending_ops(out) if kind != "tsan" else None
+        ctx.reject("C19:%s:%s" % (ops or sanitizer_ops(out), kind),
                    "threaded driver (%s build, seed %s): %s" % (san, seed, san_summary(out)),
                    dict(info, threads=True, report=out[:6000]))
-    return path, rc, info
+        last_run = None
+        for x in reversed(lines):
+            if x.startswith('{"e":"cstart"'):
+                last_run = json.loads(x)["run"]
+                break
+        first = first + 1 if last_run is None else last_run + 1
+        if san == "tsan" or first >= int(runs) or (kind in ("hang", "timeout") and attempt >= 1):
+            break
+    with open(path, "w") as f:
+        f.write("\n".join(all_lines) + ("\n" if all_lines else ""))
+    return path, rc_all, info
 
 
 # ----------------------------------------------------------------------------- vacuity guards
@@ -331,7 +525,7 @@ def expect_violations(ctx, guards):
         module, cfg, inv, why = g
         r = vlib.tlc(module, cfg, workers=2, timeout=900, expect=inv)
         return g, r
-    for (module, cfg, inv, why), r in vlib.parallel(one, guards, workers=len(guards)):
+    for (module, cfg, inv, why), r in vlib.parallel(one, guards, workers=max(1, min(len(guards), vlib.NCPU))):
         if inv not in r.invariant_violated:
             raise vlib.Infra("vacuity guard: %s/%s did not violate %s" % (module, cfg, inv))
         ctx.extra.setdefault("vacuity_guards", []).append({"cfg": cfg, "violates": inv, "states": r.distinct, "meaning": why})
@@ -468,13 +662,17 @@ def run(ctx):
         vlib.log("phase %s: %.1fs" % (name, now - t0[0]))
         t0[0] = now
     pool = concurrent.futures.ThreadPoolExecutor(max_workers=1)
-    builds = pool.submit(lambda: (build("asan"), build("tsan")))     # compile while TLC explores
+    builds = pool.submit(lambda: (build("asan", ctx), build("tsan", ctx)))     # compile while TLC explores
 
     # 1. the specifications themselves (thorough: the small configurations with -coverage, every action
     #    must have been taken; the larger configurations without it - coverage mode is several times slower)
-    for mod, cfg in (("LogFormatMC", "MC_LogFormat.cfg"), ("LogFormatMC", "MC_LogFormatLs.cfg")):
+    # development aid: VERIF_C19_PHASES=nomc skips the model checks of the specification and the vacuity
+    # guards (they do not depend on the tree under test; used for mutant trials on a loaded box, where the
+    # shared VERIF_MC_CACHE is invalidated whenever anybody edits a file in spec/); never set in a real run
+    nomc = os.environ.get("VERIF_C19_PHASES") == "nomc"
+    for mod, cfg in (() if nomc else (("LogFormatMC", "MC_LogFormat.cfg"), ("LogFormatMC", "MC_LogFormatLs.cfg"))):
         vlib.tlc_mc(ctx, mod, cfg, workers=2)
-    for mod, cfg in (("LogContext", "MC_LogContext.cfg"), ("LogContextConc", "MC_LogContextConc.cfg")):
+    for mod, cfg in (() if nomc else (("LogContext", "MC_LogContext.cfg"), ("LogContextConc", "MC_LogContextConc.cfg"))):
         r = vlib.tlc_mc(ctx, mod, cfg, workers=8, coverage=thorough, timeout=1800)
         if thorough:
             cov = r.coverage()
@@ -488,7 +686,7 @@ def run(ctx):
                          ("LogContextConc", "MC_LogContextConc_3t211.cfg")):
             vlib.tlc_mc(ctx, mod, cfg, timeout=3000)
     phase("model-checking")
-    expect_violations(ctx, [
+    expect_violations(ctx, [] if nomc else [
         ("LogContext", "MC_LogContext_setbug.cfg", "LatestPrefixWins", "set updates only the node, not the sub-tree"),
         ("LogContext", "MC_LogContext_inheritbug.cfg", "LatestPrefixWins", "new children inherit the root node's level"),
         ("LogContextConc", "MC_LogContextConc_droplock.cfg", "MutualExclusion", "find_child without the lock_guard"),
@@ -515,6 +713,20 @@ def run(ctx):
     # every 10th (quick) / every 2nd (thorough) script, rotated by the seed
     step = 2 if thorough else 10
     scripts = scripts[ctx.seed % step::step]
+    # ... and of the model around the optional level "none" (context constructed disabled, set to fatal / none,
+    # enabled and log at fatal): the same fraction
+    r = vlib.tlc_mc(ctx, "LogContext", "MC_LogContextScripts_none.cfg", workers=4)
+    none_scripts = [s_ for s_ in vlib._verdict_lines(r.out).get("SCRIPT", []) if len(s_) > 1]
+    if len(none_scripts) < 2000:
+        raise vlib.Infra("script emission (none model) produced only %d scripts" % len(none_scripts))
+    # every script ending in an observation through an object (level / enabled / log: the read-back after each
+    # call covers get), the same fraction of the others
+    obs_scripts = [s_ for s_ in none_scripts if s_[-1]["op"] in ("level", "enabled", "log")]
+    rest_scripts = [s_ for s_ in none_scripts if s_[-1]["op"] not in ("level", "enabled", "log")][ctx.seed % step::step]
+    if not any(s_[-1]["op"] == "log" and s_[-1]["l"] == 5 for s_ in obs_scripts):
+        raise vlib.Infra("the none model generated no log step at fatal")
+    ctx.extra["none_scripts"] = len(obs_scripts) + len(rest_scripts)
+    scripts += obs_scripts + rest_scripts
     spath = os.path.join(ctx.workdir, "scripts.ndjson")
     vlib.write_ndjson(spath, scripts)
 
@@ -522,11 +734,17 @@ def run(ctx):
     asan_bin, tsan_bin = builds.result()
     pool.shutdown()
     phase("wait-for-builds")
+    if asan_bin is None:
+        # VIOLATION C19:core:does-not-compile was recorded by build(): nothing can be driven
+        ctx.rule = "the core harness does not compile against the tree under test; only the model checks ran"
+        ctx.count_class("build-failure")
+        return
+    seq_timeout = 3000 if thorough else 600
 
     # 3. spec -> code
     rpath = os.path.join(ctx.workdir, "replayed.ndjson")
-    rc, out = vlib.run_harness(asan_bin, ["replay", spath, rpath], timeout=1500)
-    lines = judge_seq(ctx, rpath, "TLC-generated script", rc, out)
+    drive_seq(ctx, asan_bin, lambda first, recs, out: ["replay", spath, out, first], rpath, "TLC-generated script", seq_timeout)
+    lines = judge_seq(ctx, rpath, "TLC-generated script")
     ctx.traces_validated += len(scripts)
     count_seq(ctx, lines[:200000])
     ctx.sample({"tlc_script": scripts[len(scripts) // 2]})
@@ -535,10 +753,16 @@ def run(ctx):
     # 4. code -> spec, sequential
     nh, ml = (10000, 60) if thorough else (300, 60)
     tpath = os.path.join(ctx.workdir, "recorded.ndjson")
-    rc, out = vlib.run_harness(asan_bin, ["record", tpath, ctx.seed, nh, ml], timeout=3000)
-    seq_lines = judge_seq(ctx, tpath, "random history", rc, out, record_args=[ctx.seed, nh, ml])
+    drive_seq(ctx, asan_bin, lambda first, recs, out: ["record", out, ctx.seed, nh, ml, first, recs], tpath, "random history", seq_timeout)
+    seq_lines = judge_seq(ctx, tpath, "random history", record_args=[ctx.seed, nh, ml])
     ctx.traces_validated += nh
     count_seq(ctx, seq_lines[:300000])
+    # vacuity of the "none" part: the histories did disable roots, inner nodes and leaves and did observe
+    # disabled nodes through get / level / enabled(every level) / log at fatal (only checked on a run
+    # without rejections and with the full harness: a crashing tree legitimately cuts histories short)
+    missing = [k for k in NONE_REQUIRED if not ctx.extra.get("none_coverage", {}).get(k)]
+    if missing and not ctx.violations and not ctx.extra.get("full_build_failed"):
+        raise vlib.Infra("the recorded histories never exercised: %s" % missing)
     ops = [x for x in seq_lines[:400] if x.startswith('{"e":"op"')]
     recs = [x for x in seq_lines[:400] if x.startswith('{"e":"rec"')]
     if ops:
@@ -564,6 +788,8 @@ def run(ctx):
     tsan_windows = 0
     for sd in seeds:
         for mc in (30, 6):
+            if tsan_bin is None:
+                break
             truns = max(10, runs // 3)
             path, rc, info = run_threaded(ctx, tsan_bin, "tsan", sd, truns, windows, mc, "s%d_%d" % (sd, mc))
             tsan_windows += truns * windows
@@ -593,10 +819,12 @@ def run(ctx):
 
 
 def run_seq_only(ctx):
-    asan_bin = build("asan")
+    asan_bin = build("asan", ctx)
+    if asan_bin is None:
+        return
     tpath = os.path.join(ctx.workdir, "recorded.ndjson")
-    rc, out = vlib.run_harness(asan_bin, ["record", tpath, ctx.seed, 300, 60], timeout=3000)
-    seq_lines = judge_seq(ctx, tpath, "random history", rc, out, record_args=[ctx.seed, 300, 60])
+    drive_seq(ctx, asan_bin, lambda first, recs, out: ["record", out, ctx.seed, 300, 60, first, recs], tpath, "random history", 600)
+    seq_lines = judge_seq(ctx, tpath, "random history", record_args=[ctx.seed, 300, 60])
     ctx.traces_validated += 300
     count_seq(ctx, seq_lines)
     ctx.sample({"note": "VERIF_C19_PHASES=seq: development run, sequential record+judge only"})
@@ -624,7 +852,9 @@ def replay(ctx, payload):
             else "accepted by the current specification"))
     if p.get("threads"):
         san = p.get("san", "asan")
-        binary = build(san)
+        binary = build(san, ctx)
+        if binary is None:
+            return
         a = p["args"]
         for i in range(3):
             path, rc, info = run_threaded(ctx, binary, san, a[0], a[1], a[2], a[3], "replay%d" % i)
@@ -637,17 +867,26 @@ def replay(ctx, payload):
         print("NOTE the threaded run was re-executed 3 times on %s without a rejection" % vlib.REPO)
         return
     if "record" in p:
-        binary = build("asan")
+        binary = build("asan", ctx)
+        if binary is None:
+            return
         a = p["record"]
         tpath = os.path.join(ctx.workdir, "replay_recorded.ndjson")
-        rc, out = vlib.run_harness(binary, ["record", tpath, a[0], a[1], a[2]], timeout=3000)
-        judge_seq(ctx, tpath, "re-recorded histories", rc, out, record_args=a)
+        drive_seq(ctx, binary, lambda first, recs, out: ["record", out, a[0], a[1], a[2], first, recs], tpath, "re-recorded histories", 3000)
+        judge_seq(ctx, tpath, "re-recorded histories", record_args=a)
         ctx.traces_validated += int(a[1])
         return
-    binary = build("asan")
+    if p.get("build"):
+        build(p.get("san", "asan"), ctx)      # C19:core:does-not-compile again, or it builds now
+        ctx.traces_validated += 1
+        ctx.evaluations += 1
+        return
+    binary = build("asan", ctx)
+    if binary is None:
+        return
     spath = os.path.join(ctx.workdir, "replay_script.ndjson")
     vlib.write_ndjson(spath, [p["script"]])
     rpath = os.path.join(ctx.workdir, "replay_out.ndjson")
-    rc, out = vlib.run_harness(binary, ["replay", spath, rpath], timeout=600)
-    judge_seq(ctx, rpath, "replay", rc, out)
+    drive_seq(ctx, binary, lambda first, recs, out: ["replay", spath, out, first], rpath, "replay", 600)
+    judge_seq(ctx, rpath, "replay")
     ctx.traces_validated += 1
